@@ -21,7 +21,8 @@ structure ClassEntry where
   hashFrom : String
   /-- class whose `_check_equality` is the effective one -/
   eqFrom : String
-  /-- effective `__eq__`/`__hash__` are `Matrix`'s and have the expected dispatch shape -/
+  /-- effective `__eq__`/`__hash__`/`__getstate__` are `Matrix`'s and have the expected shape (the
+  memoised hash is dropped from the pickled state); no other copy / pickle hooks -/
   dunderOk : Bool
   /-- array hashes are functions of the array VALUES (as `np.array_equal` is): the effective
   `_compute_hash` does not call `hash_array`, or `mici.utils.hash_array` has the expected shape
